@@ -55,6 +55,13 @@ def handmade_link(rng, serial, small=False, allow_trim_begin=True):
         layout = (1, nw)
     hl = rng.choice([(1, 2), (1, 1, 1), (1, 2)])
     goff = rng.choice([0, 0, 0, 1000, 123457, -7]) if nw >= 3 else 0
+    if allow_trim_begin == "even" and nw >= 3 and 2 <= layout[0] < nw and rng.chance(1, 3):
+        # half-rate checks: the beginning trimmed by an EVEN count (positions stay on the even grid)
+        # (no more than the LAST packet of that page produces: what came before has been handed out by then)
+        first = [bs0, bs1][wseq[layout[0] - 2]] // 4 + [bs0, bs1][wseq[layout[0] - 1]] // 4
+        goff = -2 * rng.range(1, max(1, first // 2)) if first >= 2 else 0
+    elif allow_trim_begin == "even" and goff < 0:
+        goff = 0
     if goff < 0 and (layout[0] < 2 or layout[0] >= nw or not allow_trim_begin):
         goff = 0          # a negative granule position on the first page is not an intact stream
     data, meta = streams.build_link(serial, channels=ch, rate=rate, bs0=bs0, bs1=bs1, wseq=tuple(wseq), total=total,
